@@ -509,7 +509,9 @@ def c12(ck):
     ck.rule = ("controller transition relation exported by TLC (Gen_Cart): complete register space of MBC1 (32x4x2) and MBC3 "
                "(128x4) x 4 register windows x 256 written values on 2 MiB/32 KiB cartridges, a register lattice on every "
                "ROM/RAM size and type incl. ROM-only; replayed on bank-tagged images observing the bytes at 0x0000/0x3FFE, "
-               "0x4000/0x7FFE and 0xA000/0xBFFF; plus random write/read histories validated against Machine.tla; "
+               "0x4000/0x7FFE and 0xA000/0xBFFF and, by instruction fetch, the operand of LD BC,nn on the last byte of the fixed bank; "
+               "plus random write/read histories on the cartridge's side of the bus validated against Machine.tla, and bank "
+               "histories compared between the two builds; "
                "a transition is non-trivial when the write changes the visible ROM or RAM bank")
     mc = tlc("MC_Cart", cfg="MC_Cart_deep" if thorough else "MC_Cart", workers=10, coverage=True, timeout=3000)
     ck.add_tlc("MC_Cart", mc)
